@@ -29,6 +29,10 @@ KINDS: Dict[str, Tuple[List[Tuple[str, int]], bool]] = {
     "aaaa": ([(S1.server, 28)], False), "ptr+txt": ([(TA, 12), (S1.name, 16)], False), "ptrB": ([(TB, 12)], False),
     "txt": ([(S1.name, 16)], False), "srv+a": ([(S1.name, 33), (S1.server, 1)], False), "probe": ([(TA, 12)], True),
     "any": ([(S1.name, 255)], False),
+    # several questions of which this host can answer only one (an immediate type): still not a single-question query
+    "srv+ghost": ([(S1.name, 33), ("ghost._a._tcp.local.", 33)], False),
+    "ghost+a": ([("ghost.local.", 1), (S1.server, 1)], False),
+    "aaaa+ptrZ": ([(S1.server, 28), ("_zz._tcp.local.", 12)], False),
 }
 IMMEDIATE_TYPES = {33, 1, 28, 47}
 GAPS_FULL = [0, 1, 19, 20, 21, 119, 120, 121, 200, 499, 500, 501, 999, 1000, 1001, 1119, 1120, 1200, 1201]
@@ -194,7 +198,7 @@ def judge(problems: List[str], host_name: str, w: World, queries: List[Query], t
 def points(tier: str) -> List[Dict[str, Any]]:
     pts: List[Dict[str, Any]] = []
     # F1: one query, every jitter value, sighting ages around one second
-    kinds1 = list(KINDS) if tier != "quick" else ["ptr", "srv", "ptr+txt", "a", "probe", "any"]
+    kinds1 = list(KINDS) if tier != "quick" else ["ptr", "srv", "ptr+txt", "a", "probe", "any", "srv+ghost", "ghost+a", "aaaa+ptrZ"]
     for kind in kinds1:
         for age in (999, 1000, 1001, 5000):
             for j in (range(20, 121) if (tier != "quick" or age in (999, 5000)) else (20, 70, 120)):
@@ -205,7 +209,7 @@ def points(tier: str) -> List[Dict[str, Any]]:
                 pts.append({"fam": "after-announce", "kind": kind, "age": age, "draw": j})
     # F2: two (three) queries
     gaps = GAPS_FULL if tier != "quick" else GAPS_QUICK
-    kinds2 = ["ptr", "srv", "ptr+txt", "ptrB", "a", "probe"] if tier == "quick" else list(KINDS)
+    kinds2 = ["ptr", "srv", "ptr+txt", "ptrB", "a", "probe", "srv+ghost"] if tier == "quick" else list(KINDS)
     jit = list(itertools.product((0.0, 0.5, 1.0), repeat=3))
     for k1, k2 in itertools.product(kinds2, repeat=2):
         for g in gaps:
